@@ -4574,8 +4574,9 @@ class ResponseFuture(object):
         # set the query_plan according to the load balancing policy,
         # or to the explicit host target if set
         if self._host:
-            # returning a single value effectively disables retries
-            self.query_plan = [self._host]
+            # a single-host plan effectively disables retries on other hosts; it is an iterator like
+            # the load-balancing plan so that a host that was tried is not tried again
+            self.query_plan = iter([self._host])
         else:
             # convert the list/generator/etc to an iterator so that subsequent
             # calls to send_request (which retries may do) will resume where
